@@ -69,7 +69,18 @@ impl<Consumer> Pool<Consumer>
     pub(crate) fn add(&self, key_hash: KeyHash) {
         let pool_size = self.pool_size.0;
         let index = thread_rng().gen_range(0..pool_size);
+        #[cfg(feature = "verif")]
+        crate::cache::verif::point(crate::cache::verif::Site::PoolBeforeAdd);
         self.buffers[index].write().add(key_hash);
+    }
+}
+
+#[cfg(feature = "verif")]
+impl<Consumer> Pool<Consumer>
+    where Consumer: BufferConsumer {
+    /// The key hashes currently buffered, buffer by buffer (each read under the buffer's own lock).
+    pub(crate) fn verif_buffered(&self) -> Vec<Vec<KeyHash>> {
+        self.buffers.iter().map(|buffer| buffer.read().key_hashes.clone()).collect()
     }
 }
 
